@@ -106,13 +106,29 @@ func e2Family(tier string, amevs []int64) []*Job {
 						return "AG"
 					}
 					return ""
-				}(), PoolFirst: true, MaxDepth: 10, StateCap: cap1}
+				}(), PoolFirst: true, ForeignTx: true, MaxDepth: 10, StateCap: cap1}
 				jobs = append(jobs, job(e2scen(fmt.Sprintf("E2-poolfirst-N4-x%d-%s-%s", x, role, an), 4, x, a, s3), per))
 				// the same with a proposal whose completed block X's VerifyBlock rejects (102 is invalid for X): the
 				// early (pre)commits must still be verified (found D17 this way)
 				s4 := s3
 				s4.TxA = []H{102, 103}
 				jobs = append(jobs, job(e2scen(fmt.Sprintf("E2-poolfirst-rejected-block-N4-x%d-%s-%s", x, role, an), 4, x, a, s4), per))
+			}
+			if x == other && a >= 0 {
+				// the pre-block is processed on M pre-commits of view 0 before X itself pre-committed, then the view
+				// changes (possible only with more than F faulty members or restarts, which a single node cannot know):
+				// in view 1 X still needs M pre-commits of *that* view before it may commit
+				s8 := E2Spec{Views: 2, Proposals: "A", Responses: "A", PreCommits: "A", Bundles: true, NoTimeout: true, TxA: []H{101}, TxA1: []H{101}, MaxDepth: 11, StateCap: cap1}
+				jobs = append(jobs, job(e2scen(fmt.Sprintf("E2-preblock-then-viewchange-N4-x%d-%s-%s", x, role, an), 4, x, a, s8), per))
+			}
+			if x == other {
+				// a validator that was restarted with empty state: payloads carrying its own index (what it sent in its
+				// earlier life) come back to it from its peers, next to valid and garbage payloads of the others
+				s7 := E2Spec{Views: 1, Proposals: "A", Responses: "A", Commits: "AG", Peers: []int{0, 1, 2, 3}, MaxDepth: 10, StateCap: cap1}
+				if a >= 0 {
+					s7.PreCommits = "A"
+				}
+				jobs = append(jobs, job(e2scen(fmt.Sprintf("E2-restarted-validator-own-payloads-N4-x%d-%s-%s", x, role, an), 4, x, a, s7), per))
 			}
 			if x == other || x == prim1 {
 				// own change view first (timeout while responses are stored and everybody has been heard), then the late
